@@ -2,6 +2,8 @@
 (* Consuming evaluation (C15): all occurrence patterns of three variables and literals over up to MaxNodes   *)
 (* operands.  The take-or-clone scan of eval_flatex_consuming_vars (FlatImpl.Consume) never reads a slot that *)
 (* was already moved out, moves exactly the last occurrence of every variable and clones the others.         *)
+(* The variable list may be a strict superset of the variables that occur ("ghosts": a derivative keeps the    *)
+(* list of its antiderivative, `e + g*0` keeps g): every subset of the absent variables is added to the list.  *)
 EXTENDS FlatImpl, Tables, Json
 CONSTANTS MaxNodes, Emit
 VARIABLE pat                 \* sequence over 0..3: 0 = literal, k = k-th variable (a, b, c)
@@ -11,18 +13,20 @@ Next == Len(pat) < MaxNodes /\ \E x \in 0..3 : pat' = Append(pat, x)
 
 VarName(k) == <<96 + k>>      \* a b c
 Present == {pat[j] : j \in 1..Len(pat)} \ {0}
-\* index of variable k in the sorted variable list
-VIdx(k) == Cardinality({q \in Present : q <= k})
-Nodes == [j \in 1..Len(pat) |-> IF pat[j] = 0 THEN [kind |-> "num"] ELSE [kind |-> "var", vidx |-> VIdx(pat[j])]]
+Ghosts == SUBSET ((1..3) \ Present)
+\* index of variable k in the sorted variable list (G = listed variables that do not occur)
+VIdx(k, G) == Cardinality({q \in Present \cup G : q <= k})
+Nodes(G) == [j \in 1..Len(pat) |-> IF pat[j] = 0 THEN [kind |-> "num"] ELSE [kind |-> "var", vidx |-> VIdx(pat[j], G)]]
 Occ(k) == Cardinality({j \in 1..Len(pat) : pat[j] = k})
 ScanOk ==
   Len(pat) > 0 =>
-    LET acc == Consume(Nodes) IN
-    /\ \A j \in 1..Len(pat) : acc[j] # "hole"
-    /\ \A k \in Present :
-         LET pos == {j \in 1..Len(pat) : pat[j] = k}
-             last == CHOOSE j \in pos : \A q \in pos : q <= j
-         IN acc[last] = "take" /\ \A j \in pos \ {last} : acc[j] = "clone"
+    \A G \in Ghosts :
+      LET acc == Consume(Nodes(G)) IN
+      /\ \A j \in 1..Len(pat) : acc[j] # "hole"
+      /\ \A k \in Present :
+           LET pos == {j \in 1..Len(pat) : pat[j] = k}
+               last == CHOOSE j \in pos : \A q \in pos : q <= j
+           IN acc[last] = "take" /\ \A j \in pos \ {last} : acc[j] = "clone"
 \* replay cases: chain with alternating + and * (operator ids 1 and 3 of T5)
 LeafTok(j) == IF pat[j] = 0 THEN TNum(<<48 + j>>) ELSE TVar(VarName(pat[j]))
 RECURSIVE ChainToks(_)
@@ -34,8 +38,10 @@ RECURSIVE SortedPresent(_)
 SortedPresent(S) == IF S = {} THEN <<>> ELSE LET m == CHOOSE x \in S : \A y \in S : x <= y IN <<m>> \o SortedPresent(S \ {m})
 EmitCases ==
   (Emit /\ Len(pat) > 0) =>
-     LET tk == ChainToks(1) sp == SortedPresent(Present) IN
-     PrintT(ToJson([text |-> TextOfToks(tk, 1), den |-> Eval(Build(T, tk)),
-                    clones |-> [q \in 1..Len(sp) |-> Occ(sp[q]) - 1]]))
+     LET tk == ChainToks(1) IN
+     \A G \in Ghosts :
+       LET sp == SortedPresent(Present \cup G) IN
+       PrintT(ToJson([text |-> TextOfToks(tk, 1), den |-> Eval(Build(T, tk)), ghost |-> [q \in 1..Len(SortedPresent(G)) |-> VarName(SortedPresent(G)[q])],
+                      clones |-> [q \in 1..Len(sp) |-> IF sp[q] \in G THEN 0 ELSE Occ(sp[q]) - 1]]))
 ASSUME Emit => PrintT(ToJson([table |-> T]))
 =============================================================================
